@@ -60,7 +60,8 @@ ASSUMPTIONS = [
 REQUIRED_FEATURES = [
     "obj:pp", "obj:table", "obj:recfmt", "obj:ghist", "obj:hdoc",
     "how:global", "how:conf", "how:no_color", "how:palette-class", "how:palette-class-from-factory",
-    "how:palette-object", "hist:shared-enum-saw-long-unknown-value",
+    "how:palette-object", "hist:shared-enum-saw-long-unknown-value", "hist:iterator-abandoned", "hist:derived-text-modified",
+    "merge:two-results-of-one-printer",
     "hist:drop", "hist:glob", "hist:config-recreated", "hist:fmt-change", "iter:suspended-across-op",
     "iter:by-lines",
     "merge:interleaved", "static:colored-differs-per-config", "static:palette-class-differs",
@@ -74,6 +75,7 @@ _RENDER_Q = {
     "tblu": ["g", "nc"],
     "recu": ["cA"],
     "pp": ["g", "cA", "nc", "pc", "f1", "f2"],
+    "pp2": ["g", "nc"],
     "rec1": ["g", "cA", "cB", "nc"],
     "rec2": ["cB"],
     "recr": ["g"],
@@ -83,7 +85,8 @@ _RENDER_Q = {
 _LINES_Q = [("tbl", "cA"), ("pp", "g")]
 _OPEN_Q = [("tbl", "cA"), ("tbl", "cB"), ("tbl", "g")]
 _CONTROL = [["drop", "A"], ["drop", "B"], ["glob", "A"], ["glob", "B"], ["glob", "N"], ["glob", "C"], ["glob", "-"],
-            ["fmt", "tbl", "*"], ["fmt", "tbl", "1:1"], ["f"], ["hnew"], ["hp"]]
+            ["fmt", "tbl", "*"], ["fmt", "tbl", "1:1"], ["f"], ["hnew"], ["hp"],
+            ["ab", "pp", "g", 9], ["ab", "pp2", "nc", 4], ["fl", "pp", "g"]]
 # extra operations of the thorough tier: base + these = 'ext', explored to length 3 (the quick tier explores
 # 'base' to length 3; the thorough tier additionally explores the sub-alphabet _CORE at length 4)
 _EXTRA_T = ([["r", "tbl", h] for h in ("cN", "pcA", "pcB", "ponc")] +
@@ -91,7 +94,8 @@ _EXTRA_T = ([["r", "tbl", h] for h in ("cN", "pcA", "pcB", "ponc")] +
             [["r", "gh", h] for h in ("pc", "po")] + [["r", "tbl2", "nc"], ["r", "tbl2", "cB"]] +
             [["r", "rec1", "pc"], ["r", "tbl_s", "cA"], ["r", "tbl_s", "cB"]] +
             [["l", "gh", "cA"], ["l", "tbl", "pc"], ["o0", "tbl", "cA"], ["o0", "pp", "cB"], ["o", "pp", "cA"],
-             ["drop", "N"], ["drop", "C"], ["r", "tblu", "cC"], ["r", "tblu", "cB"], ["r", "recu", "g"], ["r", "tbl", "f1A"], ["r", "tbl", "f2A"],
+             ["drop", "N"], ["drop", "C"], ["l", "pp2", "g"], ["r", "pp2", "cA"], ["ab", "pp", "nc", 12],
+             ["ab", "tbl", "cA", 5], ["fl", "tbl", "cA"], ["fl", "gh", "g"], ["r", "tblu", "cC"], ["r", "tblu", "cB"], ["r", "recu", "g"], ["r", "tbl", "f1A"], ["r", "tbl", "f2A"],
              ["r", "pp", "f2A"], ["l", "tblu", "cA"], ["r", "tbl2", "cA"], ["r", "rec2", "cA"], ["r", "recr", "cB"], ["o", "gh", "cB"]])
 
 
@@ -100,6 +104,7 @@ _CORE = ([["r", "tbl", h] for h in ("g", "cA", "cB", "nc", "pc", "po")] +
          [["r", "pp", "g"], ["r", "pp", "cA"], ["r", "rec1", "g"], ["r", "rec1", "cA"], ["r", "rec1", "cB"],
           ["r", "gh", "g"], ["r", "gh", "cB"], ["r", "hd", "g"], ["r", "tbl2", "g"],
           ["r", "tbl", "f1"], ["r", "tbl", "f2"], ["r", "tblu", "g"], ["r", "recu", "cA"],
+          ["r", "pp2", "g"], ["ab", "pp", "g", 9],
           ["o", "tbl", "cA"], ["o", "tbl", "g"], ["f"], ["l", "tbl", "cA"],
           ["fmt", "tbl", "*"], ["fmt", "tbl", "1:1"],
           ["drop", "A"], ["drop", "B"], ["glob", "A"], ["glob", "B"], ["glob", "N"], ["glob", "-"]])
@@ -120,6 +125,9 @@ def alphabet(name):
 
 _MERGE_PAIRS = [("cA", "cB"), ("cA", "g"), ("nc", "cB"), ("pc", "cA"), ("cA", "cA"), ("po", "g")]
 _MERGE_PREFIX = [[], [["r", "tbl_s", "cB"]], [["glob", "B"]], [["r", "tbl_s", "cA"], ["drop", "A"]]]
+# two *different* multi-line results of the one shared printer, consumed in turns: every order with at most
+# 3 changes of turn plus the two strict alternations
+_PP_MERGE = [(["pp", "g"], ["pp2", "g"]), (["pp", "nc"], ["pp2", "nc"]), (["pp2", "cA"], ["pp", "nc"])]
 _SPLIT = 4            # second-operation classes per first operation (shard granularity)
 
 
@@ -153,6 +161,8 @@ def shards(tier):
         for i in range(len(alphabet("core"))):
             for j in range(6):
                 sh.append(("hist", "core", 4, 4, i, j, 6))
+    for pi in range(len(_PP_MERGE)):
+        sh.append(("ppmerge", pi))
     prefixes = range(1) if tier == "quick" else range(len(_MERGE_PREFIX))
     for pi in range(len(_MERGE_PAIRS)):
         for xi in prefixes:
@@ -220,6 +230,9 @@ def enabled(ops):
         elif k == "fmt":
             if op[1] in open_objs:
                 return False               # the object is modified while one of its renderings is in progress
+        elif k in ("ab", "fl"):
+            if op[2][0] == "c":
+                slots.add(op[2][1])
         else:
             how = op[2]
             if how[0] == "c":
@@ -228,7 +241,7 @@ def enabled(ops):
                 slots.add(how[2])
             if k in ("o", "o0"):
                 open_objs.append(op[1])
-    if ops[-1][0] in ("drop", "glob", "hnew", "fmt") and not open_objs:
+    if ops[-1][0] in ("drop", "glob", "hnew", "fmt", "ab") and not open_objs:
         return False                       # nothing observable at the end: same as the prefix
     return True
 
@@ -319,7 +332,7 @@ def run_history(ops, acc, w):
     feats = ["len:%d" % len(ops)]
     for ob in obs:
         feats.append("obj:" + R.OBJECT_KINDS[ob[0]])
-    if last[0] in ("r", "l", "o", "o0"):
+    if last[0] in ("r", "l", "o", "o0", "fl"):
         feats.append(how_feature(last[2]))
     if last[0] == "l":
         feats.append("iter:by-lines")
@@ -384,16 +397,41 @@ def _merge_shard(shard, acc):
             return
 
 
+def _ppmerge_shard(shard, acc):
+    w = H.world()
+    a, b = _PP_MERGE[shard[1]]
+    ref = _reference()
+    na = len(ref[(a[0], None, "nc", "std", "explicit")]["lines"])
+    nb = len(ref[(b[0], None, "nc", "std", "explicit")]["lines"])
+    orders = set(H.merge_orders(na, nb, 3))
+    for first, other in (("a", "b"), ("b", "a")):          # strict alternation, the rest of the longer one last
+        left = {"a": na, "b": nb}
+        s, turn = "", first
+        while left["a"] or left["b"]:
+            if left[turn]:
+                s += turn
+                left[turn] -= 1
+            turn = other if turn == first else first
+        orders.add(s)
+    for order in sorted(orders):
+        run_merge([], list(a), list(b), order, acc, w)
+        if acc.expired():
+            return
+
+
 def run_merge(prefix, a, b, order, acc, w):
     case = {"kind": "merge", "prefix": prefix, "a": a, "b": b, "order": order, "ids": "adversarial"}
     obs = w.run_merge(prefix, a, b, order)
     acc.trans(len(order) + len(prefix) + 2)
     switches = sum(1 for x, y in zip(order, order[1:]) if x != y)
+    kind_a = R.OBJECT_KINDS[a[0]]
     feats = ["merge:interleaved" if switches else "merge:sequential", how_feature(a[1]), how_feature(b[1]),
-             "obj:table"]
+             "obj:" + kind_a]
+    if a[0] != b[0] and switches:
+        feats.append("merge:two-results-of-one-printer")
     for ob in obs:
         if ob[4]["leftover"]:
-            acc.violation("C10:iterator-length:table", case, "a line iterator delivered a different number of "
+            acc.violation(f"C10:iterator-length:{kind_a}", case, "a line iterator delivered a different number of "
                           "lines than the pristine rendering has", ob[4]["leftover"], 0)
     label = judge(obs, case, acc)
     acc.case(nontrivial=switches >= 1, features=feats, outcome=f"{label}:merge:sw{min(switches, 6)}", traces=2)
@@ -519,6 +557,8 @@ def run_shard(shard, tier, seed, acc):
         return _hist_shard(shard, acc)
     if kind == "merge":
         return _merge_shard(shard, acc)
+    if kind == "ppmerge":
+        return _ppmerge_shard(shard, acc)
     raise ValueError(shard)
 
 
